@@ -321,9 +321,9 @@ func cmdCheck(args []string) int {
 	} else {
 		os.MkdirAll(workdir, 0o755)
 	}
-	tlim := 20
+	tlim := 40
 	if *tier == "thorough" {
-		tlim = 60
+		tlim = 120
 	}
 	if *tlimF > 0 {
 		tlim = *tlimF
